@@ -1,6 +1,8 @@
 package vm
 
 import (
+	"bytes"
+	"encoding/json"
 	"fmt"
 	"math/big"
 
@@ -29,6 +31,25 @@ type ScriptV1 struct {
 	Vars map[string]any `json:"vars"`
 }
 
+// UnmarshalJSON decodes the variables with json.Number so that numeric values
+// (monetary amounts, numbers) of any magnitude reach the machine unchanged
+// instead of going through float64.
+func (s *ScriptV1) UnmarshalJSON(data []byte) error {
+	type scriptV1 struct {
+		Script
+		Vars map[string]any `json:"vars"`
+	}
+	decoder := json.NewDecoder(bytes.NewReader(data))
+	decoder.UseNumber()
+	var x scriptV1
+	if err := decoder.Decode(&x); err != nil {
+		return err
+	}
+	s.Script = x.Script
+	s.Vars = x.Vars
+	return nil
+}
+
 func (s ScriptV1) ToCore() Script {
 	s.Script.Vars = map[string]string{}
 	for k, v := range s.Vars {
@@ -39,6 +60,8 @@ func (s ScriptV1) ToCore() Script {
 			switch amount := v["amount"].(type) {
 			case string:
 				s.Script.Vars[k] = fmt.Sprintf("%s %s", v["asset"], amount)
+			case json.Number:
+				s.Script.Vars[k] = fmt.Sprintf("%s %s", v["asset"], amount.String())
 			case float64:
 				s.Script.Vars[k] = fmt.Sprintf("%s %d", v["asset"], int(amount))
 			}
